@@ -243,7 +243,7 @@ impl Check for C15 {
         true
     }
     fn watchdog_s(&self) -> u64 {
-        60
+        20
     }
     fn arm_allocator(&self) -> bool {
         true
